@@ -145,7 +145,9 @@ structure Frame where
   locals : List (String × V) := []
   isFalse : Bool := false
 
-def Frame.set (fr : Frame) (x : String) (v : V) : Frame := { fr with locals := (x, v) :: fr.locals }
+/-- assignment REPLACES the binding (frames stay canonical: one entry per name, the last assigned first) -/
+def Frame.set (fr : Frame) (x : String) (v : V) : Frame :=
+  { fr with locals := (x, v) :: fr.locals.filter (fun p => p.1 != x) }
 
 inductive Ctl where | next | brk | cont | ret (v : V)
 
@@ -453,8 +455,8 @@ def exec (callH : CallH) (nd : Node) (w : World) : St → Frame → R Out
 
 def bindParams : List String → List V → List (String × V)
   | [], _ => []
-  | p :: ps, a :: as => ((p.replace "?" ""), a) :: bindParams ps as
-  | p :: ps, [] => ((p.replace "?" ""), V.none) :: bindParams ps []
+  | p :: ps, a :: as => (p, a) :: bindParams ps as
+  | p :: ps, [] => (p, V.none) :: bindParams ps []
 
 /-- call method `name` of the node's class with the helper calls inside it answered by `lower` -/
 def callWith (tbl : Table) (nd : Node) (w : World) (lower : CallH) : CallH := fun name args s =>
